@@ -35,6 +35,8 @@ import (
 //   - accepted although an unready change created meanwhile names X  -> violation
 //   - accepted with a snap-setup carrying another stamp than the
 //     record now has                                                 -> violation
+// One in six calls is an Update(X, other channel) for which the store has no
+// newer revision, i.e. the path that only switches the tracked channel.
 // No wall-clock enters the verdict; sleeps only shape the schedule.
 
 const c14RaceBase = 100000
@@ -129,17 +131,27 @@ func (s *verifC14Suite) c14RaceRound(c *C, k *kit.Check, idx int, nCalls int) {
 	overlapped := 0
 	for i := 0; i < nCalls; i++ {
 		op, name := "update", X
-		if rr.Intn(3) == 0 {
+		switch rr.Intn(6) {
+		case 0, 1:
 			op, name = "install", Y
+		case 2:
+			// the store has nothing newer than the installed revision: the
+			// update only switches the tracked channel
+			op = "update-metadata-only"
 		}
 		st.Lock()
 		mut0 := sh.mutations
 		rec0 := c14RawSnap(st, name)
 		var ts *state.TaskSet
 		var err error
-		if op == "update" {
+		switch op {
+		case "update":
+			s.fakeStore.refreshRevnos = nil // the store offers revision 11
 			ts, err = snapstate.Update(st, name, nil, s.user.ID, snapstate.Flags{})
-		} else {
+		case "update-metadata-only":
+			s.fakeStore.refreshRevnos = map[string]snap.Revision{c14SideInfo(X, 1).SnapID: snap.R(1)}
+			ts, err = snapstate.Update(st, name, &snapstate.RevisionOptions{Channel: "other-channel/stable"}, s.user.ID, snapstate.Flags{})
+		default:
 			ts, err = snapstate.Install(context.Background(), st, name, &snapstate.RevisionOptions{Channel: "some-channel"}, s.user.ID, snapstate.Flags{})
 		}
 		// still under the lock taken before the call's final internal check
@@ -202,7 +214,7 @@ func (s *verifC14Suite) c14RaceRound(c *C, k *kit.Check, idx int, nCalls int) {
 				kind = "VIOLATION-competing-change"
 				k.Violation("C14:busy-accepted:race-"+op+":while-switch-snap", wit())
 			}
-			if op == "update" && rec1 == rec0 && setupStamp != "" {
+			if op != "install" && rec1 == rec0 && setupStamp != "" {
 				k.Count("race_snap_setup_stamp_checks", 1)
 				if setupStamp != stampNow {
 					kind = "VIOLATION-stale-setup"
@@ -246,5 +258,4 @@ func (s *verifC14Suite) c14RaceRound(c *C, k *kit.Check, idx int, nCalls int) {
 		sort.Strings(ks)
 		k.Nontrivial(kit.Sig("race", strings.Join(ks, ",")))
 	}
-	_ = snap.R
 }
